@@ -33,6 +33,50 @@ var signatures = map[string]findingSig{
 	},
 }
 
+func init() {
+	// SET key value with all three option groups (NX|XX, GET, EX|PX|EXAT|PXAT|KEEPTTL): some orders of the
+	// groups are rejected by the grammar-driven argument parser (e.g. NX EX 100 GET, KEEPTTL GET XX).
+	signatures["set-option-order"] = func(m *Mismatch, args [][]byte) bool {
+		if len(args) < 6 || strings.ToLower(string(args[0])) != "set" {
+			return false
+		}
+		// all three option groups present, each once, nothing else
+		cond, get, exp := 0, 0, 0
+		for i := 3; i < len(args); i++ {
+			switch strings.ToUpper(string(args[i])) {
+			case "NX", "XX":
+				cond++
+			case "GET":
+				get++
+			case "KEEPTTL":
+				exp++
+			case "EX", "PX", "EXAT", "PXAT":
+				exp++
+				i++
+			default:
+				return false
+			}
+		}
+		if cond != 1 || get != 1 || exp != 1 {
+			return false
+		}
+		return strings.Contains(m.Why, "Incorrect or wrong number of arguments") && !strings.Contains(m.Why, "model (err")
+	}
+	// BITFIELD_RO with more than one GET is rejected by the argument parser.
+	signatures["bitfield-ro-multi-get"] = func(m *Mismatch, args [][]byte) bool {
+		if len(args) < 8 || strings.ToLower(string(args[0])) != "bitfield_ro" {
+			return false
+		}
+		n := 0
+		for _, a := range args[2:] {
+			if strings.EqualFold(string(a), "GET") {
+				n++
+			}
+		}
+		return n >= 2 && strings.Contains(m.Why, "Incorrect or wrong number of arguments") && !strings.Contains(m.Why, "model (err")
+	}
+}
+
 type listedFinding struct {
 	ID, Property, Text string
 }
